@@ -98,6 +98,24 @@ def make_func(kind, spec, farg, warg, N=None):
     return cls(farg, w, spec["ignore"], ra, **kw)
 
 
+def deep_copy(res):
+    import numpy
+
+    if isinstance(res, tuple):
+        return tuple(deep_copy(x) for x in res)
+    return numpy.array(res, copy=True)
+
+
+def scribble(res):
+    import numpy
+
+    if isinstance(res, tuple):
+        for x in res:
+            scribble(x)
+    elif isinstance(res, numpy.ndarray) and res.flags.writeable and res.size:
+        res[...] = True if res.dtype.kind == "b" else 77
+
+
 def same(a, b):
     import numpy
 
@@ -163,6 +181,10 @@ def check(case, rec):
             if case.get("repeat") is not None:
                 perm = perm + [case["repeat"]]
             together = cube_a.calculate([L[i] for i in perm])
+            # the caller owns what it gets back: overwrite the returned arrays in place before calculating again
+            handed_out, together = together, [deep_copy(r) for r in together]
+            for r in handed_out:
+                scribble(r)
             again = cube_a.calculate([L[i] for i in perm])
             other = cube_for(dims_b).calculate(list(L))
             once_more = [cube_a.calculate([L[i]])[0] for i in range(len(L))]
